@@ -233,15 +233,25 @@ def run_go(ctx, pkg, run, env=None, timeout=900, tags="verif", count=1, extra=()
     e["VERIF_SEED"] = str(ctx.seed)
     e["VERIF_TIER"] = ctx.tier
     e.update({k: str(v) for k, v in (env or {}).items()})
-    # keep go.sum in step with the repository under test
-    try:
-        shutil.copy(os.path.join(REPO, "go.sum"), os.path.join(HARNESS, "go.sum"))
-    except Exception:
-        pass
-    cmd = ["go", "test", "-tags", tags, "-count", str(count), "-vet=off", "-timeout", "%ds" % timeout,
+    modargs = []
+    if os.path.realpath(REPO) == "/repo":
+        # keep go.sum in step with the repository under test
+        try:
+            src, dst = os.path.join(REPO, "go.sum"), os.path.join(HARNESS, "go.sum")
+            if open(src).read() != open(dst).read():
+                shutil.copy(src, dst)
+        except Exception:
+            pass
+    else:
+        # VERIF_REPO=<scratch worktree>: build against it through an alternative go.mod (used to try
+        # the checks on seeded changes without touching /repo)
+        alt = os.path.join(ctx.work, "go.alt.mod")
+        with open(alt, "w") as f:
+            f.write(open(os.path.join(HARNESS, "go.mod")).read().replace("=> /repo", "=> " + os.path.realpath(REPO)))
+        shutil.copy(os.path.join(REPO, "go.sum"), os.path.join(ctx.work, "go.alt.sum"))
+        modargs = ["-modfile=" + alt]
+    cmd = ["go", "test"] + modargs + ["-tags", tags, "-count", str(count), "-vet=off", "-timeout", "%ds" % timeout,
            "-run", run] + list(extra) + [pkg]
-    if cpu:
-        cmd[2:2] = []
     t0 = time.time()
     p = subprocess.run(["timeout", str(timeout + 30)] + cmd, cwd=HARNESS, env=e, stdout=subprocess.PIPE,
                        stderr=subprocess.STDOUT, text=True, errors="replace")
